@@ -6,6 +6,11 @@ CHECKS = {}
 for f in sorted(os.listdir(os.path.join(HERE, "harness", "manifest"))):
     if f.endswith(".json") and f.startswith("C"):
         CHECKS[f[:-5]] = json.load(open(os.path.join(HERE, "harness", "manifest", f)))
+# only checks the lead has integrated (reviewed, run for several seeds, fixes applied) are registered
+reg_path = os.path.join(HERE, "harness", "manifest", "registered.txt")
+if os.path.exists(reg_path):
+    allowed = set(open(reg_path).read().split())
+    CHECKS = {k: v for k, v in CHECKS.items() if k in allowed}
 NOT_APPLICABLE = {}
 na_path = os.path.join(HERE, "harness", "manifest", "not_applicable.json")
 if os.path.exists(na_path):
